@@ -119,6 +119,10 @@ def _build(case):
                     len("traced")
                 finally:
                     sys.settrace(before)
+            if case.get("last_test_resets_stdout") and i == n - 1:
+                # a test that "resets" sys.stdout to the stream that was installed before the run and leaves it there:
+                # sys.stdout is then the test's doing, but sys.stderr is still the runner's to put back
+                sys.stdout = PRE_STREAMS["stdout"]
             if i == 0:
                 warnings.warn("c18 deprecation", DeprecationWarning)
                 warnings.simplefilter("ignore")        # a test meddling with the filters
@@ -264,6 +268,7 @@ def _check(case):
         warnings.filters[:] = list(base["warnings.filters"])
         warnings.filterwarnings("ignore", message=MARKER)
         sys.stdout, sys.stderr = silencer_out, silencer_err
+        PRE_STREAMS["stdout"] = silencer_out
         if pre.get("trace"):
             threading.settrace(_pre_tracer)
             sys.settrace(_pre_tracer)
@@ -377,6 +382,9 @@ def _subsets():
             yield s
 
 
+PRE_STREAMS = {}
+
+
 def _catalogue():
     """every subset of the six options x every ending (fixed option values, at=1, 3 tests)"""
     for ending in ENDINGS:
@@ -409,6 +417,12 @@ def _extras():
             for pre_trace in (False, True):
                 yield {"opts": _opts(s), "ending": ending, "ntests": 3, "at": 1, "test_sets_trace": True,
                        "pre": {"threshold": [701, 11, 9], "debug": 0, "trace": pre_trace}}
+    # the last test of the run sets sys.stdout back to the pre-run stream itself (only sys.stderr is left to the runner)
+    for ending in ("normal", "failing-tests"):
+        for s in (("buffer",), ("buffer", "coverage")):
+            for n in (1, 3):
+                yield {"opts": _opts(s), "ending": ending, "ntests": n, "at": 0, "last_test_resets_stdout": True,
+                       "pre": {"threshold": [701, 11, 9], "debug": 0, "trace": False}}
     # a trace function already installed before the run
     for ending in ("normal", "KeyboardInterrupt"):
         for s in ((), ("coverage",), ("profile",), ("coverage", "profile", "buffer")):
